@@ -2,8 +2,11 @@
 From Coq Require Import List NArith.
 From PatVerif Require Import Base.Bytes Model.Derive Gen.Src.
 Import ListNotations.
-Example tie_client_blind_verify : [x00; n2b s_type3] ++ map n2b s_t3_client_blind_attester_verify = ctx_client_blind. Proof. reflexivity. Qed.
-Example tie_client_blind_finalize : [x00; n2b s_type3] ++ map n2b s_t3_client_blind_attester_finalize = ctx_client_blind. Proof. reflexivity. Qed.
-Example tie_client_blind_client : [x00; n2b s_type3] ++ map n2b s_t3_client_blind_client = ctx_client_blind. Proof. reflexivity. Qed.
-Example tie_issuer_blind : [x00; n2b s_type3] ++ map n2b s_t3_issuer_blind = ctx_issuer_blind. Proof. reflexivity. Qed.
-Example tie_index_info : map n2b s_t3_index_info = info_issuer_origin_alias. Proof. reflexivity. Qed.
+Ltac t := vm_compute; first [reflexivity | exact I | repeat split; reflexivity].
+Definition ctx_of (ty : option N) (label : option (list N)) : option (list byte) :=
+  match ty, label with Some t, Some l => Some ([x00; n2b t] ++ map n2b l) | _, _ => None end.
+Example tie_client_blind_verify : tie (ctx_of s_type3 s_t3_client_blind_attester_verify) (fun v => v = ctx_client_blind). Proof. t. Qed.
+Example tie_client_blind_finalize : tie (ctx_of s_type3 s_t3_client_blind_attester_finalize) (fun v => v = ctx_client_blind). Proof. t. Qed.
+Example tie_client_blind_client : tie (ctx_of s_type3 s_t3_client_blind_client) (fun v => v = ctx_client_blind). Proof. t. Qed.
+Example tie_issuer_blind : tie (ctx_of s_type3 s_t3_issuer_blind) (fun v => v = ctx_issuer_blind). Proof. t. Qed.
+Example tie_index_info : tie s_t3_index_info (fun v => map n2b v = info_issuer_origin_alias). Proof. t. Qed.
